@@ -2738,9 +2738,7 @@ func checkScannerErr(c *Ctx, r *Report) {
 				return
 			}
 			src := stripIface(call.Call.Args[0])
-			if isPtrToNamed(src.Type(), "strings", "Reader") || isPtrToNamed(src.Type(), "bytes", "Reader") || isPtrToNamed(src.Type(), "bytes", "Buffer") {
-				return
-			}
+			inMemory := isPtrToNamed(src.Type(), "strings", "Reader") || isPtrToNamed(src.Type(), "bytes", "Reader") || isPtrToNamed(src.Type(), "bytes", "Buffer")
 			n++
 			k++
 			consulted := false
@@ -2753,6 +2751,11 @@ func checkScannerErr(c *Ctx, r *Report) {
 					switch x := ref.(type) {
 					case ssa.CallInstruction:
 						if o := calleeObj(x); o != nil && o.Name() == "Err" {
+							consulted = true
+						}
+						// over memory no read can fail; what is left is the
+						// line limit, which a call of Buffer lifts
+						if o := calleeObj(x); o != nil && o.Name() == "Buffer" && inMemory {
 							consulted = true
 						}
 					case *ssa.Phi:
@@ -2770,13 +2773,17 @@ func checkScannerErr(c *Ctx, r *Report) {
 				}
 			}
 			visit(call, 0)
-			r.Check(consulted, "E8-scanner-err", fmt.Sprintf("%s: line scanner#%d over a stream has its error consulted", c.funcKey(fn), k), c.instrPos(call),
-				"Err is never called on this scanner: a read error or a line longer than the scanner's buffer ends the loop like the end of the input, and what was read so far is shipped as if it were the whole file")
+			what := "over a stream has its error consulted"
+			if inMemory {
+				what = "over text in memory has its error consulted or its line limit lifted"
+			}
+			r.Check(consulted, "E8-scanner-err", fmt.Sprintf("%s: line scanner#%d %s", c.funcKey(fn), k, what), c.instrPos(call),
+				"Err is never called on this scanner (and its buffer limit is the default 64 KiB): a read error or a longer line ends the loop like the end of the input, and what was read so far is used as if it were everything")
 		})
 	}
-	r.Count("stream_scanners", n)
+	r.Count("line_scanners", n)
 	if n == 0 {
-		r.Pass("E8-scanner-err", "no line scanner over a file or stream in the module", "-", "bufio.NewScanner is applied to in-memory readers only")
+		r.Pass("E8-scanner-err", "no line scanner in the module", "-", "bufio.NewScanner is not used")
 	}
 }
 
@@ -2899,6 +2906,9 @@ func isErrorType(t types.Type) bool {
 func checkBuiltErrorsUsed(c *Ctx, r *Report) {
 	n := 0
 	for _, fn := range c.ModFuncs {
+		if fn.Synthetic != "" {
+			continue // package initialisers: `var _ error = (*T)(nil)` assertions
+		}
 		k := 0
 		forEachInstr(fn, func(in ssa.Instruction) {
 			var v ssa.Value
